@@ -322,6 +322,33 @@ def run_render(am, origin, max_size, reqp, prefer, pad):
         return exc_code(e)
 
 
+def run_rseq(origin, mid, flags, max_size, ops):
+    """low-level dns.renderer.Renderer calls; TooBig is caught and the sequence continues"""
+    try:
+        r = dns.renderer.Renderer(id=mid, flags=flags, max_size=max_size, origin=None if origin is None else N(origin))
+    except Exception as e:  # noqa
+        return exc_code(e)
+    res = []
+    for op in ops:
+        try:
+            if op[0] == 0:
+                r.add_question(N(op[1]), op[2], op[3])
+            else:
+                r.add_rrset(op[0], mk_rrset(op[1]), want_shuffle=False)
+            res.append(0)
+        except dns.exception.TooBig:
+            res.append(1)
+        except Exception as e:  # noqa
+            res.append(exc_code(e))
+            break
+    try:
+        r.write_header()
+        w = r.get_wire()
+    except Exception as e:  # noqa
+        w = exc_code(e)
+    return [res, w]
+
+
 # ------------------------------------------------------------------ independent wire walker
 
 
@@ -730,8 +757,9 @@ def gen_update(rng, origin=None, normal=True):
     for _ in range(rng.choice([0, 1, 2, 4])):
         r = rng.random()
         name = pool.name()
+        ettl = rng.choice([0, 0, 300])   # the TTL attribute of an empty rrset is not rendered
         if r < 0.2:    # name is in use
-            secs[1].append([name, zclass, 255, 0, ANY, 0, []])
+            secs[1].append([name, zclass, 255, 0, ANY, ettl, []])
         elif r < 0.4:  # rrset exists (value independent)
             secs[1].append([name, zclass, rng.choice([A, MX, TXT, 65280]), 0, ANY, 0, []])
         elif r < 0.55:  # name is not in use
@@ -753,7 +781,7 @@ def gen_update(rng, origin=None, normal=True):
                 for rd in rs[6]:
                     secs[2].append(rs[:6] + [[rd]])
         elif r < 0.5:  # delete an rrset
-            secs[2].append([name, zclass, rng.choice([A, MX, TXT, NS, 65280]), 0, ANY, 0, []])
+            secs[2].append([name, zclass, rng.choice([A, MX, TXT, NS, 65280]), 0, ANY, rng.choice([0, 0, 3600]), []])
         elif r < 0.65:  # delete all rrsets from a name
             secs[2].append([name, zclass, 255, 0, ANY, 0, []])
         else:          # delete an rr from an rrset
@@ -857,3 +885,109 @@ def mutate_fields(rng, wire):
         i = rdoff + rng.randrange(rdlen)
         w[i] = rng.choice([0, 0xC0, 0xC1, 63, 64, 255, rng.randrange(256)])
     return bytes(w)
+
+
+def gen_rseq(rng, origin=None):
+    """add_question / add_rrset sequences with a small max_size: large record sets that overflow are
+    followed by small ones with the same (new) owner, and by names at or below that owner"""
+    pool = NamePool(rng, origin)
+    mid = rng.randrange(65536)
+    flags = rng.randrange(65536) & 0x87FF
+    max_size = rng.choice([64, 100, 150, 200, 300, 512, rng.randrange(40, 700)])
+    ops = []
+    for _ in range(rng.choice([0, 1, 1, 2])):
+        ops.append([0, pool.name(), rng.choice([A, NS, MX, 255]), IN])
+    k = 0
+    for sec in (1, 2, 3):
+        for _ in range(rng.choice([0, 1, 2, 3])):
+            k += 1
+            owner = [bytes([97 + k % 26]) * rng.choice([1, 3, 10]), gen_label(rng)] + rng.choice(pool.bases)
+            if origin is not None and rng.random() < 0.5:
+                owner = [gen_label(rng), bytes([97 + k % 26]) * 3]     # relative
+            while wire_len(owner) > 200:
+                owner = owner[1:]
+            big = bytes(rng.randrange(256) for _ in range(rng.choice([60, 150, 250])))
+            style = rng.random()
+            if style < 0.6:
+                ops.append([sec, [owner, IN, TXT, 0, None, 300, [[bytes([len(big) % 256 if len(big) < 256 else 255]) + big[:255]]]]])
+            else:
+                rs = gen_rrset(rng, pool, IN)
+                if rs is not None:
+                    rs[0] = owner
+                    ops.append([sec, rs])
+            # the same owner again, small; a name below it; a record whose rdata names it
+            follow = rng.random()
+            if follow < 0.5:
+                ops.append([sec, [owner, IN, A, 0, None, 60, [[bytes(rng.randrange(256) for _ in range(4))]]]])
+            elif follow < 0.7:
+                ops.append([sec, [[b"sub"] + owner, IN, A, 0, None, 60, [[bytes(rng.randrange(256) for _ in range(4))]]]])
+            elif follow < 0.85:
+                ops.append([sec, [pool.name(), IN, NS, 0, None, 60, [[[0, owner]]]]])
+    return [mid, flags, max_size, ops]
+
+
+def rr_list(am, origin):
+    """the record sets of a message in section order, as comparable keys (names lowered, origin appended)"""
+
+    def nm(n):
+        ls = [lower(x) for x in n]
+        if (not ls or ls[-1] != b"") and origin is not None:
+            ls += [lower(x) for x in origin]
+        return tuple(ls)
+
+    def rd(r):
+        return tuple(("n", nm(x[1])) if isinstance(x, list) else ("b", bytes(x)) for x in merge(r))
+
+    out = []
+    for s in range(4):
+        sec = []
+        for rs in am[2][s]:
+            if s == 0:
+                sec.append((nm(rs[0]), rs[1], rs[2]))
+            else:
+                sec.append((nm(rs[0]), rs[1], rs[2], rs[3], rs[4], rs[5], tuple(rd(x) for x in rs[6])))
+        out.append(sec)
+    return out
+
+
+
+
+def check_rseq(case, out, fail):
+    """oracle for a low-level Renderer sequence (shared by C03 and C08)"""
+    _, origin, mid, flags, ms, ops = case
+    if isinstance(out, Err):
+        return
+    res, w = out
+    if isinstance(w, Err) or any(isinstance(x, Err) for x in res):
+        return
+    w = bytes(w)
+    if len(w) > max(ms, 12):
+        fail("renderer output exceeds max_size", length=len(w), limit=ms, sig="size")
+    # the records that were accepted, in order, must be what the message holds
+    kept = [op for op, fl in zip(ops, res) if fl == 0]
+    am = [mid, flags, [[[op[1], op[3], op[2], 0, None, 0, []] for op in kept if op[0] == 0]] +
+          [[op[1] for op in kept if op[0] == s] for s in (1, 2, 3)], None, None]
+    try:
+        wk = walk(w)
+        if wk["end"] != len(w):
+            fail("header counts are not consistent with the octets present", sig="counts")
+    except WalkError as e:
+        fail("result cannot be walked: " + str(e), sig="walk")
+        return
+    for p in check_pointers(w):
+        fail("compression pointer into removed or unknown bytes: " + p, sig="pointer")
+        break
+    try:
+        p = dns.message.from_wire(w, keyring=False, origin=None if origin is None else N(origin), one_rr_per_rrset=True)
+    except Exception as e:  # noqa
+        fail("result of the renderer sequence does not parse: " + type(e).__name__, sig="parse")
+        return
+    try:
+        pa = message_abs(p)
+    except Unmodelled:
+        return
+    want = rr_list([mid, flags, [am[2][0]] + [[rs[:6] + [[rd]] for rs in am[2][s] for rd in (rs[6] or [None]) if rd is not None] for s in (1, 2, 3)], None, None], origin)
+    got = rr_list(pa, origin)
+    if got != want:
+        fail("records kept by the renderer differ from the accepted add_rrset calls", sig="records")
+    return
